@@ -213,6 +213,10 @@ def main():
 
     known = load_known()
     os.makedirs(os.path.join(HERE, "replay"), exist_ok=True)
+    import glob
+
+    for old in glob.glob(os.path.join(HERE, "replay", f"{prop}-*.json")):
+        os.remove(old)
     lines, nviol, known_hit = [], 0, []
     bviol = list(bctx.violations) if bctx else []
     used_b = set()
